@@ -171,13 +171,13 @@ PROPS = {
         'title': 'Edits to a decoded map survive encode -> decode',
     },
     'C04': {
-        'families': [('fr_enc', ['FR-F5']), ('fr', ['FR-F2']), ('kt', ['KT-K3', 'KT-K4', 'KT-K7', 'KT-K8', 'KT-K10', 'KT-K13'])],
+        'families': [('fr_enc', ['FR-F5']), ('fr', ['FR-F2']), ('kt', ['KT-K3', 'KT-K4', 'KT-K5', 'KT-K7', 'KT-K8', 'KT-K10', 'KT-K13'])],
         'floors': {'FR-F5': 10, 'FR-F2': 13, 'KT-K3': 30, 'KT-K4': 20, 'KT-K7': 6, 'KT-K8': 2, 'KT-K10': 6, 'KT-K13': 3},
         'title': 'The encoder only emits text that its own decoder accepts (framing clause)',
     },
     'C05': {
         'families': [('fr', ['FR-F1', 'FR-F2', 'FR-F3', 'FR-F4', 'SW']), ('dg', ['DG-D4']), ('sc', ['SC-C05']), ('lb', ['LB'])],
-        'floors': {'FR-F1': 11, 'FR-F2': 13, 'FR-F3': 6, 'FR-F4': 6, 'SW': 2, 'DG-D4': 18, 'SC-C05': 9, 'LB': 2},
+        'floors': {'FR-F1': 11, 'FR-F2': 13, 'FR-F3': 6, 'FR-F4': 6, 'SW': 2, 'DG-D4': 18, 'SC-C05': 10, 'LB': 2},
         'title': 'File framing: which lines reach which section parser',
     },
     'C08': {
